@@ -178,6 +178,9 @@ func (e *Eval) complete(v interface{}, ss ast.SelectionSet, depth int) interface
 		}
 		return r
 	case Obj:
+		if v == nil {
+			return nil
+		}
 		if len(ss) == 0 {
 			return v // custom scalar carrying a map
 		}
